@@ -1,7 +1,223 @@
-/- line-protocol handler for model "cond" (stub until its model is built) -/
+/- line-protocol handler for model "cond" (C14): see harness/inproc/h_cond.c for the
+   line format.  The <cfghex> token is ignored here; the tree comes from the <node>
+   tokens (`parent,prev,comp,cond,str,tag,extra,dirs`); `next` / `children` are derived
+   the way configparser.y links them (`Cond.link`). -/
+import LtVerif.Model.Cond
 namespace Driver
+open LtVerif LtVerif.B LtVerif.Cond
 
+namespace CondP
+
+def compOf : Char → Option Comp
+  | 'G' => some .unset | 'S' => some .socket | 'U' => some .url | 'H' => some .host
+  | 'I' => some .remoteIp | 'Q' => some .query | 'C' => some .scheme | 'M' => some .method
+  | 'R' => some .header | _ => none
+
+def compCh : Comp → Char
+  | .unset => 'G' | .socket => 'S' | .url => 'U' | .host => 'H' | .remoteIp => 'I'
+  | .query => 'Q' | .scheme => 'C' | .method => 'M' | .header => 'R'
+
+def condOf : String → Option CondOp
+  | "un" => some .unset | "eq" => some .eq | "ne" => some .ne | "re" => some .match_
+  | "nr" => some .nomatch | "pr" => some .prefix_ | "su" => some .suffix | "el" => some .else_
+  | _ => none
+
+def condNm : CondOp → String
+  | .unset => "un" | .eq => "eq" | .ne => "ne" | .match_ => "re" | .nomatch => "nr"
+  | .prefix_ => "pr" | .suffix => "su" | .else_ => "el"
+
+def comps (s : String) : Option (List Comp) :=
+  if s = "-" then some [] else s.toList.mapM compOf
+
+def optNat (s : String) : Option (Option Nat) :=
+  if s = "-" then some none else s.toNat?.map some
+
+def lower (b : Bytes) : Bytes := b.map toLower
+
+def addrOf (fam hex : String) : Option SockAddr := do
+  let b ← ofHex hex
+  if fam = "4" ∧ b.length = 4 then some (.v4 b)
+  else if fam = "6" ∧ b.length = 16 then some (.v6 b)
+  else none
+
+/-! regular-expression subset → `Regex` -/
+
+def isSpecial (c : UInt8) : Bool :=
+  c == 92 || c == 94 || c == 36 || c == 46 || c == 124 || c == 63 || c == 42 || c == 43 ||
+  c == 40 || c == 41 || c == 91 || c == 93 || c == 123 || c == 125
+
+/-- body of a character class up to ']' (ranges a-z are expanded) -/
+def clsBody : Nat → Bytes → List UInt8 → Option (List UInt8 × Bytes)
+  | 0, _, _ => none
+  | _ + 1, [], _ => none
+  | _ + 1, 93 :: rest, acc => some (acc.reverse, rest)
+  | f + 1, a :: 45 :: b :: rest, acc =>
+    if b = 93 then clsBody f (45 :: b :: rest) (a :: acc)
+    else if a ≤ b then
+      clsBody f rest (((List.range (b.toNat - a.toNat + 1)).map fun k => a + k.toUInt8).reverse ++ acc)
+    else none
+  | f + 1, a :: rest, acc => clsBody f rest (a :: acc)
+
+def atomOf : Bytes → Option (Atom × Bytes)
+  | [] => none
+  | 46 :: rest => some (.any, rest)
+  | 92 :: c :: rest => if isAlnum c then none else some (.lit c, rest)
+  | 91 :: 94 :: rest => (clsBody (rest.length + 1) rest []).map fun (cs, r) => (.cls true cs, r)
+  | 91 :: rest => (clsBody (rest.length + 1) rest []).map fun (cs, r) => (.cls false cs, r)
+  | c :: rest => if isSpecial c then none else some (.lit c, rest)
+
+def itemsOf : Nat → Bytes → List (Atom × Quant) → Option (List (Atom × Quant) × Bool)
+  | 0, _, _ => none
+  | _ + 1, [], acc => some (acc.reverse, false)
+  | _ + 1, [36], acc => some (acc.reverse, true)
+  | f + 1, s, acc =>
+    match atomOf s with
+    | none => none
+    | some (a, rest) =>
+      match rest with
+      | 42 :: r => itemsOf f r ((a, .star) :: acc)
+      | 43 :: r => itemsOf f r ((a, .plus) :: acc)
+      | 63 :: r => itemsOf f r ((a, .opt) :: acc)
+      | r => itemsOf f r ((a, .one) :: acc)
+
+def regexOf (s : Bytes) : Option Regex :=
+  let (bol, body) := match s with | 94 :: r => (true, r) | r => (false, r)
+  (itemsOf (body.length + 1) body []).map fun (items, eol) => { bol, items, eol }
+
+def setsOf (s : String) : Option (List (Nat × Nat)) :=
+  if s = "-" then some [] else
+  (s.splitOn "+").mapM fun kv =>
+    match kv.splitOn "." with
+    | [k, v] => do some ((← k.toNat?), (← v.toNat?))
+    | _ => none
+
+/-- node token → node and the header name as written (for the tree dump) -/
+def nodeOf (tok : String) : Option (Node × Bytes) :=
+  match tok.splitOn "," with
+  | [par, prev, comp, cond, str, tag, extra, dirs] => do
+    let parent ← par.toNat?
+    let prev ← optNat prev
+    let comp ← (match comp.toList with | [c] => compOf c | _ => none)
+    let cond ← condOf cond
+    let str ← ofHex str
+    let tag ← ofHex tag
+    let sets ← setsOf dirs
+    let cidr ← (if extra = "-" then some none else
+      match extra.splitOn "." with
+      | [fam, hex, bits] => do some (some ((← addrOf fam hex), (← bits.toNat?)))
+      | _ => none)
+    let re ← (if cond = .match_ ∨ cond = .nomatch then (regexOf str).map some else some none)
+    some ({ parent, prev, comp, cond, str, tag := lower tag, cidr, re, sets }, tag)
+  | _ => none
+
+def knownMethods : List String :=
+  ["GET", "HEAD", "QUERY", "POST", "PUT", "DELETE", "CONNECT", "OPTIONS", "TRACE", "PATCH",
+   "PROPFIND", "MKCOL", "COPY", "MOVE", "LOCK", "UNLOCK", "PRI"]
+
+def attrOf (tok : String) : Option (Comp × AttrVal) :=
+  match tok.splitOn ":" with
+  | ["I", fam, hex, s] => do some (.remoteIp, .ip (← addrOf fam hex) (← ofHex s))
+  | ["R", n, v] => do some (.header, .hdr (lower (← ofHex n)) (← ofHex v))
+  | [c, v] =>
+    match c.toList with
+    | [ch] => do
+      let comp ← compOf ch
+      let b ← ofHex v
+      if comp = .remoteIp ∨ comp = .header ∨ comp = .unset then none
+      else if comp = .method then
+        -- r->http_method is an enum: unknown names compare as ""
+        some (comp, .str (if knownMethods.any (fun m => ofString m == b) then b else []))
+      else some (comp, .str b)
+    | _ => none
+  | _ => none
+
+def dumpNode (i : Nat) (nd : Node) (rawTag : Bytes) : String :=
+  let opt (o : Option Nat) := match o with | some k => toString k | none => "-"
+  let ch := if nd.children.isEmpty then "-" else ".".intercalate (nd.children.map toString)
+  let str := if nd.cond = .else_ then "-" else toHex nd.str
+  let tag := if nd.comp = .header ∧ nd.cond ≠ .else_ then toHex rawTag else "-"
+  let extra := match nd.cidr with
+    | some (.v4 b, bits) => "4." ++ toHex b ++ "." ++ toString bits
+    | some (.v6 b, bits) => "6." ++ toHex b ++ "." ++ toString bits
+    | _ => "-"
+  s!"{i}:{nd.parent}:{opt nd.prev}:{opt nd.next}:{ch}:{compCh nd.comp}:{condNm nd.cond}:{str}:{tag}:{extra}"
+
+def dumpCache (n : Nat) (c : Cache) : String :=
+  if n ≤ 1 then "-" else
+  String.join (((List.range n).drop 1).map fun i => toString (c.res i).toNat ++ toString (c.loc i).toNat)
+
+def dumpValid (v : Comp → Bool) : String :=
+  String.ofList ("SUHIQCMR".toList.filter fun ch =>
+    match compOf ch with | some c => v c | none => false)
+
+def dirsOf (s : String) : Option (List Nat) :=
+  s.toList.mapM fun ch => if ch.isDigit then some (ch.toNat - 48) else none
+
+/-- op token → model operation -/
+def opOf (n nslots : Nat) (tok : String) : Option Op :=
+  match tok.splitOn "," with
+  | ["k", s, i] => do
+    let s ← s.toNat?; let i ← i.toNat?
+    if s < nslots ∧ 1 ≤ i ∧ i < n then some (.check s i) else none
+  | ["a", s, a] => do
+    let s ← s.toNat?; let (c, v) ← attrOf a
+    if s < nslots then some (.setAttr s c v) else none
+  | ["z", s] => do let s ← s.toNat?; if s < nslots then some (.resetAll s) else none
+  | ["v", s, cs] => do
+    let s ← s.toNat?; let cs ← comps cs
+    if s < nslots then some (.setValid s cs) else none
+  | ["n", s, cs, as] => do
+    let s ← s.toNat?; let cs ← comps cs
+    let sets ← (if as = "-" then some [] else (as.splitOn ";").mapM attrOf)
+    if s < nslots then some (.newReq s sets cs) else none
+  | ["s"] => if nslots < 8 then some .spawn else none
+  | ["p", s, d] => do
+    let s ← s.toNat?
+    if s < nslots ∧ (d = "012" ∨ d = "345") then some (.patch s (← dirsOf d)) else none
+  | _ => none
+
+def showOp (n : Nat) (op : Op) (st : List Req) (o : Obs) : String :=
+  let cache (s : Nat) := dumpCache n (st.getD s default).cache
+  match op, o with
+  | .check s _, .result _ _ r => s!"k{if r = .true_ then 1 else 0}={cache s}"
+  | .setAttr s _ _, _ => s!"a={cache s}"
+  | .resetAll s, _ => s!"z={cache s}"
+  | .setValid s _, _ => s!"v={cache s}"
+  | .newReq s _ _, _ => s!"n={cache s}"
+  | .spawn, _ =>
+    let s := st.length - 1
+    s!"s{s},{dumpValid (st.getD s default).valid}={cache s}"
+  | .patch s dirs, .conf _ _ cf => s!"p{".".intercalate (dirs.map fun d => toString (cf d))}={cache s}"
+  | _, _ => "?"
+
+def runOps (t : Tree) (n : Nat) : List String → List Req → List String → Option (List String)
+  | [], _, acc => some acc.reverse
+  | tok :: rest, st, acc =>
+    match opOf n st.length tok with
+    | none => none
+    | some op =>
+      let (st', o) := step true t st op
+      runOps t n rest st' (showOp n op st' o :: acc)
+
+end CondP
+
+open CondP in
 def condLine : List String → String
+  | "c" :: _cfg :: rest =>
+    let nodeToks := rest.takeWhile (· ≠ "/")
+    let opToks := (rest.dropWhile (· ≠ "/")).drop 1
+    if rest.all (· ≠ "/") then "bad-op" else
+    match nodeToks.mapM nodeOf with
+    | none => "bad-op"
+    | some nds =>
+      let t := link (nds.map (·.1))
+      let n := t.length
+      if n = 0 then "bad-op" else
+      let tree := toString n ++ String.join (((List.range n).drop 1).map fun i =>
+        " " ++ dumpNode i (t.node i) ((nds.getD i default).2))
+      match runOps t n opToks [default] [] with
+      | none => "bad-op"
+      | some outs => tree ++ " /" ++ String.join (outs.map (" " ++ ·))
   | _ => "bad-op"
 
 end Driver
